@@ -8,6 +8,7 @@ mod c03;
 mod c04;
 mod c05;
 mod c06;
+mod c07;
 mod c08;
 mod c09;
 mod c11;
@@ -36,6 +37,7 @@ fn dispatch(case: &Value) -> Value {
         "c04" => c04::run(k, case),
         "c05" => c05::run(k, case),
         "c06" => c06::run(k, case),
+        "c07" => c07::run(k, case),
         "c08" => c08::run(k, case),
         "c09" => c09::run(k, case),
         "c11" => c11::run(k, case),
